@@ -572,6 +572,9 @@ class Facts:
         # new private helpers (not in tables/known_functions.json) are analysed inline in their callers
         import inline
         inline.absorb(self)
+        # equivalent spellings of one construct are brought to one form (engine/py/normalise.py)
+        import normalise
+        normalise.normalise(self)
 
     # ---- lookup -------------------------------------------------------------------------
     def fn(self, suffix):
